@@ -10,13 +10,16 @@ budget == <<nMsgs, nElect, nCrash, nIsr, nRej>>
 
 MCInit == Init /\ last = [a |-> "Init"] /\ nMsgs = 0 /\ nElect = 0 /\ nCrash = 0 /\ nIsr = 0 /\ nRej = 0
 
-\* one batch of 1..Batch messages with any mix of ack policies
-MCPublish(pols) ==
-  LET recs == [i \in 1..Len(pols) |-> [v |-> nMsgs + i, pol |-> pols[i]]] IN
+\* one batch of 1..Batch messages with any mix of ack policies; in a batch of more
+\* than one message any member but the first may be too large (rejected)
+MCPublish(pols, bigs) ==
+  LET recs == [i \in 1..Len(pols) |-> [v |-> nMsgs + i, pol |-> pols[i], big |-> bigs[i]]]
+      nb == Cardinality({i \in 1..Len(pols) : bigs[i]}) IN
   /\ nMsgs + Len(pols) <= MaxMsgs
+  /\ ~bigs[1] /\ nRej + nb <= MaxRejects
   /\ DoPublish(recs)
   /\ last' = [a |-> "Publish", recs |-> recs]
-  /\ nMsgs' = nMsgs + Len(pols) /\ UNCHANGED <<nElect, nCrash, nIsr, nRej>>
+  /\ nMsgs' = nMsgs + Len(pols) /\ nRej' = nRej + nb /\ UNCHANGED <<nElect, nCrash, nIsr>>
 MCReject ==
   /\ nRej < MaxRejects
   /\ DoPublishRejected(100 + nRej)
@@ -40,7 +43,7 @@ MCStaleFetch(f) == DoStaleFetch(f) /\ obs.acks = obs.acks /\ last.a # "StaleFetc
 MCApplyMeta(f, reach) == DoApplyMeta(f, reach) /\ last' = [a |-> "ApplyMeta", f |-> f, reach |-> reach] /\ UNCHANGED budget
 
 MCNext ==
-  \/ \E n \in 1..Batch : \E pols \in [1..n -> Policies] : MCPublish(pols)
+  \/ \E n \in 1..Batch : \E pols \in [1..n -> Policies], bigs \in [1..n -> BOOLEAN] : MCPublish(pols, bigs)
   \/ MCReject
   \/ \E f \in R, late \in BOOLEAN : MCFetch(f, late)
   \/ \E f \in R : MCLagExpire(f) \/ MCShrink(f) \/ MCExpand(f) \/ MCCheckpoint(f) \/ MCCrash(f)
@@ -53,6 +56,7 @@ MCSpec == MCInit /\ [][MCNext]_mcvars
 Clean == IgnoreTaints \/ taint = {}
 Inv_CommittedSurvives == Clean => C02_CommittedSurvives
 Inv_NoDivergence == Clean => C02_NoDivergence
+Inv_HWBacked == Clean => C02_HWBacked
 Inv_Nacked == C04_NackedNeverStored
 Inv_Struct == EpochCachesWellFormed /\ LeaderInISR
 AcksOK == [][Clean' => C04_AcksOK]_mcvars
